@@ -130,6 +130,8 @@ def main(tier):
     import tailguard, earlypass
     rep.attempt(tailguard.check, rep, 'PQ', {'raid_pq_gen', 'raid_pq_check'}, 8, None)
     rep.attempt(earlypass.check, rep, 'RAID', {'raid_xor_gen', 'raid_pq_gen', 'raid_xor_check', 'raid_pq_check'}, 9)
+    import samecell
+    rep.attempt(samecell.check, rep, 'RAID', {'raid_pq_gen', 'raid_xor_gen'}, ['ARRAY[]'], ['ARRAY[]'], 40, acc_tags=[])
     return rep.finish()
 
 
